@@ -27,8 +27,8 @@ type Rendered struct {
 // LayoutKinds lists every layout site kind the renderer knows, with the number
 // of alternatives. (Documented against the grammar in DESIGN.md section 3/C03.)
 var LayoutKinds = map[string]int{
-	"lead": 5, "eol": 2, "gap": 6, "indent": 6, "trail": 4, "ws1": 4, "ws0": 4, "wsparen": 3, "paren": 3,
-	"rnl": 2, "bodyopen": 3, "bodyclose": 3, "end": 6,
+	"lead": 6, "eol": 2, "gap": 6, "indent": 6, "trail": 4, "ws1": 4, "ws0": 4, "wsparen": 3, "paren": 3,
+	"rnl": 2, "bodyopen": 3, "bodyclose": 3, "end": 6, "gcomm": 4,
 }
 
 type renderer struct {
@@ -86,7 +86,12 @@ func (r *renderer) wsparen() { r.w(r.pick("wsparen", "", " ", " \t")) }
 
 // nl ends the current line and starts the next one with the given canonical
 // indentation. blank: the canonical layout has one blank line here.
-func (r *renderer) nl(indent string, blank bool) {
+func (r *renderer) nl(indent string, blank bool) { r.nlDecl(indent, blank, false) }
+
+// nlDecl: decl says that the line being started is a type, relation or condition declaration. The grammar itself allows a
+// comment there ("(NEWLINE multiLineComment)? NEWLINE DEFINE ..."); such a comment reaches the parser when the '#' follows a tab
+// (the pre-pass only removes comment lines indented by blanks): its text is tokenised, so it holds lexable text only.
+func (r *renderer) nlDecl(indent string, blank, decl bool) {
 	// trailing part of the line being ended
 	if r.comments {
 		r.w(r.pick("trail", "", " # trailing comment, see #42 # with [brackets] and : colon", "   ", "\t"))
@@ -109,6 +114,14 @@ func (r *renderer) nl(indent string, blank bool) {
 		g = strings.ReplaceAll(g, "\n", "\r\n")
 	}
 	r.w(g)
+	if decl && r.comments {
+		c := r.pick("gcomm", "", "\t# grammar-level comment: [user:*] (a or b) a-b, x.y/z 1.1\n",
+			"\t#define type relations model schema module extend and or but not from with\n\t#\n", "\t# one\n\n  # blank-indented in between\n\t# two: was condition in_range(x: int, y: list<string>)\n")
+		if eol == "\r\n" {
+			c = strings.ReplaceAll(c, "\n", "\r\n")
+		}
+		r.w(c)
+	}
 	r.w(r.pick("indent", indent, "\t", "", " ", indent+"    ", "\t \t"))
 }
 
@@ -206,7 +219,7 @@ func Render(m *Model, lay *Layout) *Rendered {
 	if lay != nil {
 		r.style = lay.Style
 	}
-	r.w(r.pick("lead", "", "\n", "# header comment\n", "  ", "\n  \n# c1\n# c2\n"))
+	r.w(r.pick("lead", "", "\n", "# header comment\n", "  ", "\n  \n# c1\n# c2\n", "\t# tab-indented header comment (grammar-level)\n"))
 	modHdr := func() {
 		r.w("module")
 		r.ws1()
@@ -237,7 +250,7 @@ func Render(m *Model, lay *Layout) *Rendered {
 		mdlHdr()
 	}
 	for ti, t := range m.Types {
-		r.nl("", true)
+		r.nlDecl("", true, true)
 		if t.Extend {
 			r.w("extend")
 			r.ws1()
@@ -251,7 +264,7 @@ func Render(m *Model, lay *Layout) *Rendered {
 			r.w("relations")
 		}
 		for ri, rel := range t.Rels {
-			r.nl("    ", false)
+			r.nlDecl("    ", false, true)
 			r.w("define")
 			r.ws1()
 			r.mark(markR(ti, ri))
@@ -263,7 +276,7 @@ func Render(m *Model, lay *Layout) *Rendered {
 		}
 	}
 	for ci, c := range m.Conds {
-		r.nl("", true)
+		r.nlDecl("", true, true)
 		r.w("condition")
 		r.ws1()
 		r.mark(markC(ci))
